@@ -158,6 +158,27 @@ def split_style(style):
     return parts[0], parts[1:]
 
 
+_COMPOUND = re.compile(r'(@|(async|def|class|if|elif|else|for|while|with|try|except|finally|match|case)\b)')
+
+
+def join_simple_statements(raw):
+    """Same program, but runs of simple statements with equal indentation are written on one
+    line separated by `; ` (markers \x01..\x02 are kept, positions are computed afterwards)."""
+    def simple(line):
+        t = re.sub(r'\x01[BUDXA]\d*\x02', '', line).strip()
+        return bool(t) and not t.endswith(':') and not t.endswith('\\') \
+            and not _COMPOUND.match(t) and t.count('(') == t.count(')') \
+            and t.count('[') == t.count(']') and t.count('{') == t.count('}')
+    out = []
+    for line in raw.split('\n'):
+        ind = len(line) - len(line.lstrip(' '))
+        if out and simple(line) and out[-1][1] == ind and out[-1][2]:
+            out[-1][0] += '; ' + line.lstrip(' ')
+        else:
+            out.append([line, ind, simple(line)])
+    return '\n'.join(o[0] for o in out)
+
+
 LEAD_FORMS = {'': 'x', 'call': 'x.copy()', 'sub': 'x[0]'}
 LEAD_PATTERNS = ['lead', 'leadcall', 'leadsub', 'leadself', 'leadselfcall', 'leadselfsub']
 
@@ -172,7 +193,7 @@ class Render:
         # `box`: every tag is written as b(T), an iterable object that carries its tag, so that
         # a bare `x` (or `x.copy()`, `x[0]`) can be the first iterable of a comprehension
         self.box = 'box' in opts
-        distract = ([o for o in opts if o != 'box'] or [''])[0]
+        distract = ([o for o in opts if o not in ('box', 'semi')] or [''])[0]
         self.distract = DISTRACTORS if distract == 'mix' else [distract] if distract else []
         self.distractors = []   # (line, col) of the x in every distractor
         self.dead = set(dead)
@@ -181,6 +202,9 @@ class Render:
         self.nscope = 0
         self.modtags = {}
         raw = '\n'.join(self.stmt_body(shape, 0)) + '\n'
+        if 'semi' in opts:
+            # `semi`: consecutive simple statements of one block share a physical line (`a; b`)
+            raw = join_simple_statements(raw)
         self.uses = {}       # k -> (line, col)
         self.binds = {}      # tag -> (line, col)
         self.decls = []      # (line, col) of names in global/nonlocal statements
